@@ -149,8 +149,10 @@ def run(ctx):
                'RecursionError in the caller\'s code, outside FilterStack.run\'s translation')
     # R15.6: recursive accessors of the tree classes run in the caller's code, outside run's try.  Grouping descends one Python
     # frame per tree level; an accessor that needs two (A -> B -> A per level) overflows on trees parse() has just accepted.
-    ref_clusters = [{'sql.NameAliasMixin.get_alias', 'sql.NameAliasMixin.get_real_name', 'sql.TokenList._get_first_name', 'sql.TokenList.get_name'},
-                    {'sql.Token.__repr__', 'sql.Token._get_repr_name', 'sql.Token._get_repr_value'}]
+    # (the name accessors get_name -> get_alias -> _get_first_name -> get_name were accepted here as "the pinned shape" until a
+    # reviewer showed `select a asc asc ... (x400)`: parse() succeeds, get_name() raises RecursionError.  The cluster is a
+    # violation of this very rule and is listed in known_findings.json, not whitelisted.)
+    ref_clusters = [{'sql.Token.__repr__', 'sql.Token._get_repr_name', 'sql.Token._get_repr_value'}]
     nscc = 0
     for g in cg.sccs():
         if not (len(g) > 1 or g[0] in cg.edges[g[0]]):
@@ -170,17 +172,58 @@ def run(ctx):
         if not any(walks(q) for q in g):
             continue
         nscc += 1
-        ok = len(names) == 1 or any(names <= c for c in ref_clusters)
+        # a cycle through several functions is acceptable when the recursion is cut by a translating guard: after removing the
+        # call sites that sit in `try: ... except RecursionError: raise SQLParseError`, no cycle through >1 function remains
+        gset = set(g)
+        edges = {q: set() for q in g}
+        guarded_sites = 0
+        for q in g:
+            fn_ = repo.funcs[q]
+            tries = [t for t in own_nodes(fn_.node) if isinstance(t, ast.Try) and _translates(t)]
+            for call, callees in cg.sites.get(q, []):
+                tgt = {c if isinstance(c, str) else getattr(c, 'qname', None) for c in callees} & gset
+                if not tgt:
+                    continue
+                if any(any(x is call for b in t.body for x in ast.walk(b)) for t in tries):
+                    guarded_sites += 1
+                    continue
+                edges[q] |= tgt
+        # cycle detection on the unguarded edges (self-loops of one function are the accepted one-frame-per-level form)
+        def has_cycle():
+            color = {}
+            def dfs(u):
+                color[u] = 1
+                for v in edges[u]:
+                    if v == u:
+                        continue
+                    if color.get(v) == 1 or (color.get(v) is None and dfs(v)):
+                        return True
+                color[u] = 2
+                return False
+            return any(color.get(u) is None and dfs(u) for u in edges)
+        ok = len(names) == 1 or any(names <= c for c in ref_clusters) or not has_cycle()
         fn = repo.funcs[sorted(g)[0]]
         ctx.ob('R15.6', f'cycle:{sorted(names)[0]}', f'{fn.mod.relpath}:{fn.node.lineno}',
-               f'recursive accessor(s) {sorted(names)} descend one frame per tree level (self-recursion), like the grouping passes', ok,
-               f'the recursion runs through {len(names)} functions per tree level ({sorted(names)}): on a tree as deep as grouping can build '
-               '(about 990 levels at the default limit) the accessor raises RecursionError in the caller\'s code, outside FilterStack.run')
+               f'recursive accessor(s) {sorted(names)} descend one frame per tree level (self-recursion), like the grouping passes, '
+               f'or translate RecursionError into SQLParseError at the recursive call ({guarded_sites} guarded site(s))', ok,
+               f'the recursion runs through {len(names)} functions per tree level ({sorted(names)}) with no translating guard: on a tree as deep '
+               'as grouping can build (about 990 levels at the default limit; `a asc asc ...` or `a::b::c...` a few hundred levels deep is '
+               'enough) the accessor raises RecursionError in the caller\'s code, outside FilterStack.run')
     ctx.need(nscc >= 1, f'only {nscc} recursive accessor cycles found in sqlparse.sql: call-graph resolution lost them')
     # the entry points must consume run (sanity)
     for q in ENTRY[:4]:
         reach = cg.reachable([q])
         ctx.need(run_q in reach, f'{q} no longer reaches FilterStack.run')
+
+
+def _translates(t):
+    """try statement with a handler for RecursionError (or a superclass) whose body raises SQLParseError"""
+    for h in t.handlers:
+        names = ['BaseException'] if h.type is None else [src(e) for e in h.type.elts] if isinstance(h.type, ast.Tuple) else [src(h.type)]
+        if any(n in ('RecursionError', 'RuntimeError', 'Exception', 'BaseException') for n in names):
+            if any(isinstance(x, ast.Raise) and x.exc is not None and 'SQLParseError' in src(x.exc) for b in h.body for x in ast.walk(b)):
+                return True
+    return False
 
 
 def check_split_exception(ctx, ep, call, hit):
